@@ -132,12 +132,12 @@ def optN : Nat → Ty → Ty
 /-- the head of the rest does not continue a type when the loop runs at the power of `&` -/
 def tyHeadFree20 : List Tok → Bool
   | [] => true
-  | t :: _ => !(t.text == ".") && (t.sp || !(t.text == "<"))
+  | t :: _ => !(isSym "." t) && (t.sp || !(t.text == "<"))
 
 /-- the head of the rest does not continue a type -/
 def tyHeadFree : List Tok → Bool
   | [] => true
-  | t :: _ => !(t.text == ".") && (t.sp || !(t.text == "<" || t.text == "?" || t.text == "??"))
+  | t :: _ => !(isSym "." t) && (t.sp || !(t.text == "<" || t.text == "?" || t.text == "??"))
 
 theorem tyHeadFree20_of (rest : List Tok) (h : tyHeadFree rest = true) : tyHeadFree20 rest = true := by
   cases rest with
@@ -193,8 +193,9 @@ theorem dotIdent_none (Y : List Tok) (h : tyHeadFree20 Y = true) : dotIdent Y = 
   rcases Y with _ | ⟨⟨k, s, sp⟩, _ | ⟨⟨k2, s2, sp2⟩, Y⟩⟩
   · rfl
   · cases k <;> rfl
-  · simp [tyHeadFree20] at h
-    cases k <;> cases k2 <;> simp [dotIdent, h.1]
+  · simp [tyHeadFree20, isSym] at h
+    cases k <;> cases k2 <;> simp [dotIdent]
+    simpa using h.1
 
 theorem tyHeadFree20_qs (k : Nat) (rest : List Tok) (h : tyHeadFree20 rest = true) :
     tyHeadFree20 (mergeQ (qs k) ++ rest) = true := by
